@@ -215,6 +215,26 @@ pub fn byte_mutants_range(f: &[u8], stride: usize, lo: usize, hi: usize, mut emi
             continue;
         }
         emit(Mutant { desc: format!("trunc@{t}"), class: "truncate", bytes: f[..t].to_vec() });
+        // region overwrites ("zeroed sectors"): everything before t, everything from t on, and the 4..32 bytes at t
+        for v in [0x00u8, 0xFF] {
+            if t > 0 && f[..t].iter().any(|b| *b != v) {
+                let mut m = f.to_vec();
+                m[..t].fill(v);
+                emit(Mutant { desc: format!("fill{v:02x}@0..{t}"), class: "overwrite", bytes: m });
+            }
+            if f[t..].iter().any(|b| *b != v) {
+                let mut m = f.to_vec();
+                m[t..].fill(v);
+                emit(Mutant { desc: format!("fill{v:02x}@{t}.."), class: "overwrite", bytes: m });
+            }
+        }
+        for k in [4usize, 8, 12, 16, 32] {
+            if t + k <= n && f[t..t + k].iter().any(|b| *b != 0) {
+                let mut m = f.to_vec();
+                m[t..t + k].fill(0);
+                emit(Mutant { desc: format!("fill00@{t}+{k}"), class: "overwrite", bytes: m });
+            }
+        }
     }
     if lo != 0 {
         return;
